@@ -219,6 +219,8 @@ func c17Identifiers(c *mon.Ctx) {
 		"[::1]", "[::1]:80", "[::1]:", "[::1", "::1", "[]", "[", "[:", "[:8448", "]", "[]:80", "[[", "@a:[", "!a:[", "@a:[:80", "!a:]", "[1.2.3.4]", "[1.2.3.4]:80", "[::1%eth0]", "[g::1]", "1.2.3.4", "1.2.3.4:8448", "256.1.1.1", "a..b", "-a", "a_b", "a b", "é.example",
 		"@a:[::1]:80", "@a:b:c", "@a:b:80", "@A:b", "@a+b:c", "@a b:c", "@é:c", "!a b:c", "!é:c", "!a:b:c:80", "@" + strings.Repeat("a", 252) + ":b", "@" + strings.Repeat("a", 253) + ":b",
 		"::ffff:1.2.3.4", "::ffff:1.2.3.4:8448", "@a:::ffff:1.2.3.4", "!a:::ffff:1.2.3.4", "1::", "2001:db8::1", "2001:db8::1:8448",
+		// other spellings of an address with an IPv4 tail, without brackets (tenth seeding round, C13-T: only the "::" prefix was looked for)
+		"0:0:0:0:0:ffff:1.2.3.4", "0::ffff:1.2.3.4", "0:0:0:0:0:ffff:1.2.3.4:8448", "0::ffff:1.2.3.4:8448", "64:ff9b::1.2.3.4", "1:2:3:4:5:6:1.2.3.4", "@a:0::ffff:1.2.3.4", "!a:0:0:0:0:0:ffff:1.2.3.4",
 		"!" + strings.Repeat("a", 251) + ":bc", "!" + strings.Repeat("a", 252) + ":bc", "!" + strings.Repeat("a", 300) + ":bc", "!a:" + strings.Repeat("b", 251), "!a:" + strings.Repeat("b", 252), "!" + strings.Repeat("é", 126) + ":b", "!" + strings.Repeat("é", 127) + ":b",
 		"!" + strings.Repeat("A", 42), "!" + strings.Repeat("A", 43), "!" + strings.Repeat("A", 44), "!" + strings.Repeat("A", 42) + "+", "!" + strings.Repeat("A", 42) + "=",
 		// 43 characters of the alphabet with something a lenient base64 decoder skips or tolerates in between / behind
